@@ -7,6 +7,7 @@ package operators
 
 import (
 	"fmt"
+	"strings"
 
 	ahocorasick "github.com/petar-dambovaliev/aho-corasick"
 
@@ -45,7 +46,7 @@ func newPMFromDataset(options plugintypes.OperatorOptions) (plugintypes.Operator
 		DFA:                  true,
 	})
 
-	m, _ := memoizeDo(options.Memoizer, data, func() (any, error) { return builder.Build(dataset), nil })
+	m, _ := memoizeDo(options.Memoizer, "pmFromDataset:"+strings.Join(dataset, "\n"), func() (any, error) { return builder.Build(dataset), nil })
 
 	return &pm{matcher: m.(ahocorasick.AhoCorasick), minLen: minPatternLen(dataset)}, nil
 }
